@@ -36,6 +36,7 @@ type iObs struct {
 	Res      string `json:"res"`
 	Same     bool   `json:"same"`
 	AllocKiB int    `json:"alloc_kib"`
+	InputKiB int    `json:"input_kib"`
 	Size     int    `json:"size_bytes"`
 	Err      string `json:"err"`
 }
@@ -307,7 +308,7 @@ func (Inflate) Run(c *orch.Case) *orch.Outcome {
 	sp := world.Get().NewSP()
 	sp.MaximumDecompressedBodySize = map[string]int64{"0": 0, "1": 1, "2k": 2048, "64k": 65536, "maxint": math.MaxInt64}[cfg.Limit]
 
-	o := &iObs{Size: total}
+	o := &iObs{Size: total, InputKiB: len(enc) >> 10}
 	runtime.GC()
 	var m0, m1 runtime.MemStats
 	runtime.ReadMemStats(&m0)
